@@ -56,18 +56,128 @@ def s_obj(k):
     return {"id": "s%d" % k, "rules": [rule]}
 
 
+N_OFF = 300                      # model stand-in of a document JSON cannot serialise: BDoc (300+k) / BBad (300+k)
+
+
+def _permit(act):
+    return {"id": "r", "effect": "permit", "actions": [act], "resource": {"type": "doc"}}
+
+
+def _n_day(k):
+    import datetime
+    return datetime.date(2026, 9, 1 + k % 28)
+
+
+def n_obj(k):
+    """document no. k holding a value json.dumps cannot serialise, in a place the decisions on the probe requests do
+    not depend on (what yaml.safe_load makes of n_text(k); a custom source hands out this very object): a date in a
+    top-level metadata key / a datetime in nested metadata / a set / bytes / a date as operand of a condition or as an
+    obligation field of a rule for an action that is never requested.  It permits action "a<300+k>" on type "doc"."""
+    import datetime
+    d = _n_day(k)
+    doc = {"id": "n%d" % k}
+    v = k % 6
+    if v == 0:
+        doc["updated"] = d
+    elif v == 1:
+        doc["meta"] = {"reviewed": datetime.datetime(d.year, d.month, d.day, 10, 0, 0)}
+    elif v == 2:
+        doc["tags"] = {"a", "t%d" % k}
+    elif v == 3:
+        doc["sig"] = ("k%d" % k).encode()
+    doc["rules"] = [_permit("a%d" % (N_OFF + k))]
+    if v >= 4:
+        z = {"id": "z", "effect": "deny", "actions": ["zz"], "resource": {"type": "doc"}}
+        if v == 4:
+            z["condition"] = {"==": [{"attr": "context.day"}, d]}
+        else:
+            z["obligations"] = [{"type": "audit", "since": d}]
+        doc["rules"].append(z)
+    return doc
+
+
+def n_text(k):
+    """the same document as YAML text (unquoted dates / timestamps, !!set, !!binary)."""
+    import base64
+    d = _n_day(k).isoformat()
+    v = k % 6
+    head = {0: "updated: %s\n" % d, 1: "meta: {reviewed: %s 10:00:00}\n" % d, 2: "tags: !!set {a, t%d}\n" % k,
+            3: "sig: !!binary %s\n" % base64.b64encode(("k%d" % k).encode()).decode()}.get(v, "")
+    z = ""
+    if v >= 4:
+        z = "- id: z\n  effect: deny\n  actions: [zz]\n  resource: {type: doc}\n"
+        z += ('  condition: {"==": [{attr: context.day}, %s]}\n' % d) if v == 4 else \
+             ("  obligations: [{type: audit, since: %s}]\n" % d)
+    return ("# access policy, revision %d\nid: n%d\n%srules:\n- id: r\n  effect: permit\n  actions: [a%d]\n"
+            "  resource: {type: doc}\n%s" % (k, k, head, N_OFF + k, z))
+
+
+_N_CHECKED = {}
+
+
+def n_selfcheck(k):
+    """harness sanity (not a judgement): the YAML text really parses to n_obj(k), and json.dumps really refuses it."""
+    if k % 6 not in _N_CHECKED:
+        ok = True
+        try:
+            json.dumps(n_obj(k), sort_keys=True)
+            ok = False
+        except Exception:  # noqa: BLE001
+            pass
+        if HAVE_YAML:
+            import yaml
+            ok = ok and yaml.safe_load(render(["n", k]).decode()) == n_obj(k)
+        _N_CHECKED[k % 6] = ok
+    assert _N_CHECKED[k % 6], "n_obj / n_text disagree for variant %d" % (k % 6)
+
+
+_N_SCHEMA = {}
+
+
+def n_schema_ok(k):
+    """does the bundled policy.schema.json accept n_obj(k)?  (asked of jsonschema directly, not of rbacx)"""
+    v = k % 6
+    if v not in _N_SCHEMA:
+        import jsonschema
+        from importlib import resources
+        schema = json.loads(resources.files("rbacx.dsl").joinpath("policy.schema.json").read_text(encoding="utf-8"))
+        _N_SCHEMA[v] = jsonschema.validators.validator_for(schema)(schema).is_valid(n_obj(k))
+    return _N_SCHEMA[v]
+
+
+def yaml_capable(c):
+    """does the source of this case read YAML (custom sources hand out Python objects: any value goes)?"""
+    k, fl = c["kind"][0], c.get("flavour", {})
+    if k == "gen":
+        return True
+    if k == "http":
+        return fl.get("fmt", "json") != "json"
+    return bool(fl.get("yaml"))
+
+
+def n_loadable(c, k):
+    return yaml_capable(c) and (c["kind"][0] == "gen" or HAVE_YAML) and not (c.get("validate") and not n_schema_ok(k))
+
+
 def render(b) -> bytes:
-    """bytes of content b = ["d", n] | ["b", k] | ["s", k]; sizes of the first two exactly as Sources.bsize.
+    """bytes of content b = ["d", n] | ["b", k] | ["s", k] | ["n", k].
     ["s", k] (parsable, schema-invalid) is ["b", 100+k] for the model of a validating source and ["d", 200+k] for
-    the model of a non-validating one: all three render to the same bytes."""
-    if b[0] == "s" or (b[0] == "b" and b[1] >= S_OFF_BAD) or (b[0] == "d" and b[1] >= S_OFF_DOC):
+    the model of a non-validating one: all three render to the same bytes.  ["n", k] (YAML text of a document with
+    dates / sets / bytes) is ["d", 300+k] for the model of a source that reads YAML and ["b", 300+k] for the others.
+    (The model's Sources.bsize only enters the file source's (size, mtime) signature; every write here gets a fresh
+    mtime, so the sizes need not be the model's.)"""
+    if b[0] == "n" or (b[0] in ("b", "d") and b[1] >= N_OFF):
+        k = b[1] - (0 if b[0] == "n" else N_OFF)
+        txt = n_text(k)
+        size = 320 + k % 2
+    elif b[0] == "s" or (b[0] == "b" and b[1] >= S_OFF_BAD) or (b[0] == "d" and b[1] >= S_OFF_DOC):
         k = b[1] - {"s": 0, "b": S_OFF_BAD, "d": S_OFF_DOC}[b[0]]
         txt = json.dumps(s_obj(k))
         size = 192 + k % 2
     elif b[0] == "d":
         n = b[1]
-        txt = "{}" if n == 0 else json.dumps({"id": "d%d" % n, "rules": []})
-        size = 64 + n % 2
+        txt = json.dumps(doc_obj(n))
+        size = 160 + n % 2
     else:
         txt = "{x%d" % b[1]
         size = 8 + b[1] % 2
@@ -76,9 +186,13 @@ def render(b) -> bytes:
 
 
 def doc_obj(n):
+    """document n >= 1 permits exactly action "a<n>" on resource type "doc" (so that requests tell the documents of a
+    history apart); document 0 is {}."""
+    if n >= N_OFF:
+        return n_obj(n - N_OFF)
     if n >= S_OFF_DOC:
         return s_obj(n - S_OFF_DOC)
-    return {} if n == 0 else {"id": "d%d" % n, "rules": []}
+    return {} if n == 0 else {"id": "d%d" % n, "rules": [_permit("a%d" % n)]}
 
 
 def pol_id(p):
@@ -90,7 +204,20 @@ def pol_id(p):
     if isinstance(p, dict) and isinstance(p.get("id"), str) and p["id"][:1] == "s" and p["id"][1:].isdigit() \
             and p == s_obj(int(p["id"][1:])):
         return S_OFF_DOC + int(p["id"][1:])
+    if isinstance(p, dict) and isinstance(p.get("id"), str) and p["id"][:1] == "n" and p["id"][1:].isdigit() \
+            and p == n_obj(int(p["id"][1:])):
+        return N_OFF + int(p["id"][1:])
     return "?" + repr(p)[:60]
+
+
+def expect_effect(doc, probe):
+    """the decision document `doc` (an id as pol_id gives it) takes on the probe request {subject u / staff, action
+    "a<probe>", resource doc/1, empty context}, by construction of the documents: permit iff it is the document's own
+    action; deny by default otherwise ({} and rule-less documents deny everything).  None = not specified (a
+    schema-invalid document a non-validating source let through, or an unknown object)."""
+    if not isinstance(doc, int) or S_OFF_DOC <= doc < N_OFF:
+        return None
+    return "permit" if (doc >= 1 and doc == probe) else "deny"
 
 
 def loadable_id(c, content):
@@ -102,6 +229,8 @@ def loadable_id(c, content):
         return content[1]
     if content[0] == "s" and not c.get("validate"):
         return S_OFF_DOC + content[1]
+    if content[0] == "n" and n_loadable(c, content[1]):
+        return N_OFF + content[1]
     return None
 
 
@@ -109,6 +238,8 @@ def m_content(c, b):
     """content as the model sees it."""
     if b is not None and b[0] == "s":
         return ["b", S_OFF_BAD + b[1]] if c.get("validate") else ["d", S_OFF_DOC + b[1]]
+    if b is not None and b[0] == "n":
+        return ["d", N_OFF + b[1]] if n_loadable(c, b[1]) else ["b", N_OFF + b[1]]
     return b
 
 
@@ -248,9 +379,15 @@ class World:
 
     def loadable_doc(self):
         """doc id when the world is healthy and holds a valid document, else None."""
-        if self.fail_etag or self.fail_load or self.store is None or self.store[0][0] != "d":
+        if self.fail_etag or self.fail_load or self.store is None:
+            return None
+        if self.store[0][0] == "n":                 # loadable only by a source that reads YAML (Setup sets n_ok)
+            return N_OFF + self.store[0][1] if self.n_ok(self.store[0][1]) else None
+        if self.store[0][0] != "d":
             return None
         return self.store[0][1]
+
+    n_ok = staticmethod(lambda k: False)
 
 
 EXC = {"runtime": RuntimeError, "os": OSError, "value": ValueError, "timeout": TimeoutError,
@@ -292,6 +429,8 @@ class GenSource:
             raise _mk_exc(self.exc, "load down")
         if w.store is None:
             raise FileNotFoundError("no policy")
+        if w.store[0][0] == "n":                    # a Python-built document holding a date / datetime / set / bytes
+            return n_obj(w.store[0][1])
         return json.loads(render(w.store[0]).decode())
 
 
@@ -527,6 +666,32 @@ class FakeRandom:
     def __getattr__(self, n):
         import random as _r
         return getattr(_r, n)
+
+
+_PROBE_LOOP = {}
+
+
+def probe_loop():
+    """one event loop per process for the probe requests (Guard.evaluate_async).  The engine hands the CPU-bound
+    decision function to asyncio.to_thread; this loop's default executor runs it at once in the calling thread (same
+    function, same context - only the thread hop is saved, which costs milliseconds on a loaded machine)."""
+    pid = os.getpid()
+    if _PROBE_LOOP.get("pid") != pid:
+        from concurrent.futures import Future, ThreadPoolExecutor
+
+        class InlineExecutor(ThreadPoolExecutor):
+            def submit(self, fn, /, *a, **k):
+                f = Future()
+                try:
+                    f.set_result(fn(*a, **k))
+                except BaseException as e:  # noqa: BLE001
+                    f.set_exception(e)
+                return f
+
+        loop = asyncio.new_event_loop()
+        loop.set_default_executor(InlineExecutor(max_workers=1))
+        _PROBE_LOOP.update(pid=pid, loop=loop)
+    return _PROBE_LOOP["loop"]
 
 
 class Probe:
@@ -774,7 +939,8 @@ class Setup:
         try:
             if kind[0] == "file":
                 self.tmp = tempfile.mkdtemp(prefix="c10_")
-                self.world = World(c["world"], os.path.join(self.tmp, "policy.json"), bool(fl.get("replace")))
+                self.world = World(c["world"], os.path.join(self.tmp, "policy.yaml" if fl.get("yaml") else "policy.json"),
+                                   bool(fl.get("replace")))
                 from rbacx.store.file_store import FilePolicySource
                 self.src = FilePolicySource(self.world.path, include_mtime_in_etag=bool(kind[1]), validate_schema=validate)
             else:
@@ -792,13 +958,16 @@ class Setup:
                     from rbacx.store.s3_store import S3PolicySource
                     det = ["etag", "version_id", "checksum"][kind[1]]
                     pref = None if kind[2] is None else ALGO[kind[2]]
-                    self.src = S3PolicySource("s3://bucket/policy.json", client=FakeS3(self.world, fl),
+                    self.src = S3PolicySource("s3://bucket/policy" + (".yaml" if fl.get("yaml") else ".json"),
+                                              client=FakeS3(self.world, fl),
                                               validate_schema=validate, change_detector=det, prefer_checksum=pref)
                 else:
                     raise ValueError(kind)
+            self.world.n_ok = lambda k: n_loadable(c, k)
             self.probe = Probe(self.src, self.world, gate)
             self.cache = CountingCache()
             self.p0 = doc_obj(c["p0"])
+            self.c_p0 = c["p0"]
             self.guard = (gated_guard_class(Guard, gate) if gate is not None else Guard)(self.p0, cache=self.cache)
             cfg = c["cfg"]
             self.r = loader.HotReloader(self.guard, self.src, initial_load=bool(c["initial_load"]),
@@ -812,6 +981,29 @@ class Setup:
         r = self.r
         return [res, pol_id(self.guard.policy), self.cache.clears, self.probe.n_etag, self.probe.n_load,
                 r.last_etag, r.last_error is not None, r.suppressed_until, getattr(r, "_backoff", None)]
+
+    def decisions(self):
+        """the engine's decisions (public evaluate_async) on the probe requests that tell the documents of the history
+        apart: one request per document - the one the engine shows, the last ones a load() returned before it, the
+        initial one; three at most - asking for that document's own action (action "a0": no document permits it).
+        -> [[probe, effect], ...]"""
+        from rbacx.core.model import Action, Context, Resource, Subject
+        ids = []
+        for x in [pol_id(self.guard.policy)] + [pol_id(o) for o in self.probe.loaded_objs[-3:]][::-1] + [self.c_p0, 0]:
+            if isinstance(x, int) and not (S_OFF_DOC <= x < N_OFF) and x not in ids:
+                ids.append(x)
+        ids = ids[:3]
+        subj, res, ctx, guard = Subject("u", ["staff"]), Resource("doc", "1"), Context({}), self.guard
+
+        async def go():
+            got = []
+            for i in ids:
+                try:
+                    got.append([i, (await guard.evaluate_async(subj, Action("a%d" % i), res, ctx)).effect])
+                except Exception as e:  # noqa: BLE001
+                    got.append([i, "raised %s: %s" % (type(e).__name__, e)])
+            return got
+        return probe_loop().run_until_complete(go())
 
     def src_obs(self):
         """source-specific observables (model: ReloadRun.obs_http): HTTP: remembered ETag, number of 304 answers."""
@@ -896,9 +1088,12 @@ def impl_run(c):
                 info["incall"] = su.probe.incall
                 info["model_form"] = incall_model_form(c, at, su.probe.incall, held_for_load,
                                                        any(x[0] == "etag" for x in su.probe.calls))
+            if raised is None and res is True:
+                info["decisions"] = su.decisions()
             out["checks"].append(info)
             out["snaps"].append(su.snap(res if raised is None else "raised"))
             out["obs"].append(su.src_obs())
+        out["final_decisions"] = su.decisions()
         out["final_loadable_doc"] = su.world.loadable_doc()
         out["src_etag_attr"] = getattr(su.src, "_etag", None) if c["kind"][0] == "http" else None
     except Exception as e:  # noqa: BLE001
@@ -1062,6 +1257,18 @@ def content_kind_tag(c, tagstr):
     return k == "http"
 
 
+def decisions_off(doc, decs):
+    """probe requests whose decision is not the one document `doc` takes: [[probe, got, expected], ...]"""
+    return [[pr, got, expect_effect(doc, pr)] for pr, got in (decs or [])
+            if expect_effect(doc, pr) is not None and got != expect_effect(doc, pr)]
+
+
+DEC_TRUE = ("a check returned True and the engine shows the document its load returned, but the decisions taken after "
+            "it are not those of that document (the active policy is the one decisions come from)")
+DEC_END = ("at the end of the history the engine's decisions on the probe requests are not those of its active "
+           "document (the one guard.policy shows and the model holds)")
+
+
 def judge(chk, c, out, m_out):
     """returns list of (clause, detail) violations; calls chk.known for the open findings' classes."""
     viol = []
@@ -1101,6 +1308,10 @@ def judge(chk, c, out, m_out):
                                                                "clears": [pre[2], post[2]]}))
             if post[6]:
                 viol.append(("last_error still set after a successful reload", {"step": ix}))
+            off = decisions_off(post[1], info.get("decisions"))
+            if off:
+                viol.append((DEC_TRUE, {"step": ix, "document": post[1], "probe_got_expected": off,
+                                        "decisions": info.get("decisions")}))
         else:
             # --- failure / unchanged is inert
             if not info["same_obj"] or post[2] != pre[2]:
@@ -1139,6 +1350,10 @@ def judge(chk, c, out, m_out):
             e_seen = [x[1] for x in calls if x[0] == "etag"]
             l_seen = [x[1] for x in calls if x[0] == "load"]
             last_apply = (e_seen[0] if e_seen else None, l_seen[0] if l_seen else None)
+    off = decisions_off(snaps[-1][1], out.get("final_decisions"))
+    if off and not viol:
+        viol.append((DEC_END, {"document": snaps[-1][1], "probe_got_expected": off,
+                               "decisions": out.get("final_decisions")}))
     # --- convergence on the stable tail
     if not viol:
         verdict, detail = tail_verdict(c, out, last_apply)
@@ -1301,10 +1516,12 @@ EXTRA = ["frc~wnew", "frc~wprev", "chk~wbad", "chk~del", "frc~del", "wsame", "ch
 class Builder:
     """expands symbolic histories into concrete scripts, mirroring the world."""
 
-    def __init__(self, kind, world, rng=None, hows=("async",)):
+    def __init__(self, kind, world, rng=None, hows=("async",), ns=0.0, ns_rng=None, n_ok=None):
         self.kind = kind
         self.clock = 1.0
         self.fresh = 10
+        self.ns, self.ns_rng = (ns if ns_rng is not None else 0.0), ns_rng   # P(a new document is not JSON-serialisable)
+        self.n_ok = n_ok or (lambda k: False)                                 # can this case's source load n-document k?
         self.badk = 0
         self.invk = 0
         self.cur = None if world[0] is None else list(world[0][0])
@@ -1323,9 +1540,16 @@ class Builder:
 
     def events(self, sym):
         """symbol -> list of world events (and their effect on the mirror)."""
-        if sym == "wnew":
+        if sym == "wnew" and self.ns and self.ns_rng.random() < self.ns:
+            sym = "wn"
+        if sym in ("wnew", "wd"):
             self.fresh += 1
             b = ["d", self.fresh]
+            self._set(b)
+            return [["write", b]]
+        if sym == "wn":        # a new document with a value json.dumps refuses (YAML date / timestamp / !!set / !!binary)
+            self.fresh += 1
+            b = ["n", self.fresh]
             self._set(b)
             return [["write", b]]
         if sym == "wprev":
@@ -1397,8 +1621,15 @@ class Builder:
             for ev in self.events(sym):
                 self.script.append(["ev", ev])
 
+    def is_doc(self, b):
+        return b is not None and (b[0] == "d" or (b[0] == "n" and self.n_ok(b[1])))
+
     def loadable(self):
-        return self.cur is not None and self.cur[0] == "d" and not self.flags["fail_etag"] and not self.flags["fail_load"]
+        return self.is_doc(self.cur) and not self.flags["fail_etag"] and not self.flags["fail_load"]
+
+    def _new_doc(self):
+        evs = self.events("wnew")
+        return evs if self.is_doc(self.cur) else self.events("wd")
 
     def tail(self, straddle):
         """make the world loadable, then three unforced checks, each beyond any window."""
@@ -1409,12 +1640,12 @@ class Builder:
         if self.flags["fail_load"]:
             fix.append(["fail_load", False])
             self.flags["fail_load"] = False
-        if self.cur is None or self.cur[0] != "d":
-            fix += self.events("wnew")
+        if not self.is_doc(self.cur):
+            fix += self._new_doc()
         mid = None
         if straddle:
             if not fix:
-                fix = self.events("wnew")
+                fix = self._new_doc()
             mid = fix.pop()          # the world stabilises between etag() and load() of the first tail check
         for ev in fix:
             self.script.append(["ev", ev])
@@ -1433,6 +1664,8 @@ def init_world(kind, variant=0):
         return [None, 1, False, False, False, False, versioning, algos]
     if variant == 2:
         return [[["b", 9], 1], 1, False, False, False, False, versioning, algos]
+    if variant == 3:
+        return [[["n", 2], 1], 1, False, False, False, False, versioning, algos]
     return [[["d", 1], 1], 1, False, False, False, False, versioning, algos]
 
 
@@ -1459,7 +1692,7 @@ KINDS = ([["gen", m] for m in range(4)] + [["file", False], ["file", True], ["ht
 
 def flavour_for(kind, rng):
     if kind[0] == "file":
-        return {"replace": rng.random() < 0.5}
+        return {"replace": rng.random() < 0.5, "yaml": HAVE_YAML and rng.random() < 0.15}
     if kind[0] == "gen":
         return {"exc": rng.choice(["runtime", "os", "value", "timeout", "custom", "key", "json", "fnf"])}
     if kind[0] == "http":
@@ -1475,30 +1708,55 @@ def flavour_for(kind, rng):
             fl["json_ct"] = rng.choice(["application/json; charset=utf-8", "Application/JSON", "application/problem+json"])
         return fl
     if kind[0] == "s3":
-        return {"rawetag": rng.random() < 0.3, "clienterror": rng.random() < 0.3}
+        return {"rawetag": rng.random() < 0.3, "clienterror": rng.random() < 0.3, "yaml": HAVE_YAML and rng.random() < 0.15}
     return {}
 
 
+NS_MODES = [0.0] * 8 + [0.6, 0.9]     # per case: the probability that a newly written document is not JSON-serialisable
+
+
+def yaml_flavour(kind, fl, rng):
+    """make the source of the case one that reads YAML (file / S3: a .yaml name; HTTP: YAML Content-Type or URL)."""
+    if not HAVE_YAML:
+        return fl
+    if kind[0] in ("file", "s3"):
+        fl["yaml"] = True
+    elif kind[0] == "http" and fl.get("fmt", "json") == "json":
+        fl["fmt"] = rng.choice(["yaml-ct", "yaml-url"])
+        if fl["fmt"] == "yaml-ct":
+            fl.setdefault("yaml_ct", "application/yaml")
+    return fl
+
+
 def make_case(kind, syms, rng, fam, *, il=None, asy=None, p0=None, cfg=None, variant=None, straddle=None,
-              hows=None, det_u=False, validate=None):
+              hows=None, det_u=False, validate=None, ns=None, fl_over=None):
     il = rng.random() < 0.5 if il is None else il
     asy = (kind[0] == "gen" and rng.random() < 0.4) if asy is None else asy
-    variant = rng.choice([0, 0, 0, 1, 2]) if variant is None else variant
+    ns = rng.choice(NS_MODES) if ns is None else ns
+    if ns and not (HAVE_YAML or kind[0] == "gen"):
+        ns = 0.0
+    variant = rng.choice([0, 0, 0, 1, 2] + ([3, 3] if ns else [])) if variant is None else variant
     world = init_world(kind, variant)
-    p0 = rng.choice([1, 1, 77]) if p0 is None else p0
+    p0 = rng.choice([1, 1, 77] + ([N_OFF + 1] if ns else [])) if p0 is None else p0
     cfg = rng.choice(CFGS) if cfg is None else cfg
     hows = hows or rng.choice([("async",), ("async",), ("async", "sync"), ("sync",), ("async", "sync", "loop", "alias")])
-    b = Builder(kind, world, None if det_u else rng, hows)
+    fl = flavour_for(kind, rng)
+    if ns:
+        fl = yaml_flavour(kind, fl, rng)
+    fl.update(fl_over or {})
+    if validate is None:
+        validate = kind[0] in ("file", "http", "s3") and HAVE_JSONSCHEMA and rng.random() < 0.3
+    case = {"kind": kind, "cfg": cfg, "initial_load": il, "async": asy, "p0": p0, "world": world, "flavour": fl}
+    if validate:
+        case["validate"] = True     # the source is created with validate_schema=True
+    b = Builder(kind, world, None if det_u else rng, hows, ns=ns, ns_rng=rng, n_ok=lambda k: n_loadable(case, k))
     for s in syms:
         b.add(s)
     straddle = (rng.random() < 0.3) if straddle is None else straddle
     tail = b.tail(straddle)
-    case = {"kind": kind, "cfg": cfg, "initial_load": il, "async": asy, "p0": p0, "world": world,
-            "script": b.script, "tail": tail, "flavour": flavour_for(kind, rng), "fam": fam, "syms": list(syms)}
-    if validate is None:
-        validate = kind[0] in ("file", "http", "s3") and HAVE_JSONSCHEMA and rng.random() < 0.3
-    if validate:
-        case["validate"] = True     # the source is created with validate_schema=True
+    case.update(script=b.script, tail=tail, fam=fam, syms=list(syms))
+    if ns:
+        case["ns"] = ns
     return case
 
 
@@ -1581,12 +1839,25 @@ def gen_cases(chk):
             for hist in sh_hist:
                 for val in ((True, False) if HAVE_JSONSCHEMA else (False,)):
                     n_ = len(cases)
-                    case = make_case(["http", et], hist, rng, "shape", il=bool(n_ % 2), validate=val, straddle=False,
-                                     variant=0)
-                    case["flavour"].update(body=body, fmt=fmt, ctype=bool((n_ // 2) % 2))
+                    over = {"body": body, "fmt": fmt, "ctype": bool((n_ // 2) % 2)}
                     if fmt == "yaml-ct":
-                        case["flavour"].setdefault("yaml_ct", "application/yaml")
-                    cases.append(case)
+                        over["yaml_ct"] = rng.choice(["application/yaml", "application/x-yaml", "text/yaml; charset=utf-8"])
+                    cases.append(make_case(["http", et], hist, rng, "shape", il=bool(n_ % 2), validate=val,
+                                           straddle=False, variant=0, fl_over=over, ns=0.0 if fmt == "json" else None))
+    # 1e. documents JSON cannot serialise (a YAML file / object / response with an unquoted date or timestamp, a !!set,
+    #     !!binary; a custom source handing out Python objects with such values): every history to length 3 (thorough:
+    #     4) in which EVERY newly written document is of that kind, so that two or more of them are loaded in a row by
+    #     unforced / forced / straddled checks, after a JSON-able or a non-serialisable initial document, also rolled
+    #     back to the previous one.  Judged like every other history: on the documents AND on the decisions taken
+    #     after each reload.
+    ns_alpha = ["wnew", "chk", "frc", "wprev", "chk~wnew"] + (["del", "T+"] if thorough else [])
+    ns_kinds = [["gen", 0], ["gen", 1], ["gen", 2]] + ([["file", False], ["file", True], ["http", True], ["http", False],
+                                                        ["s3", 0, None], ["s3", 1, None], ["s3", 2, 0]] if HAVE_YAML else [])
+    for kind in ns_kinds:
+        for L in range(1, (4 if thorough else 3) + 1):
+            for syms in itertools.product(ns_alpha, repeat=L):
+                if "wnew" in " ".join(syms):
+                    cases.append(make_case(kind, syms, rng, "nonser", ns=1.0, cfg=CFGS[len(cases) % 3]))
     # 2. random long histories
     n_long = 4000 if thorough else 600
     for _ in range(n_long):
@@ -1733,8 +2004,14 @@ def impl_run_conc(c):
             raise RuntimeError("a check parked at a source call / at set_policy holds the reloader's lock")
         res = [out["results"].get(i) if i in turns.done else None for i in range(len(threads))]
         known = (su.guard.policy is su.p0) or any(su.guard.policy is o for o in su.probe.loaded_objs)
-        return su.snap(None) + [res, known]
+        dec = None
+        if su.guard.policy is not probed[0] or len(turns.done) != probed[1]:
+            # the engine shows another document object, or a check has returned: what does it decide now?
+            probed[0], probed[1] = su.guard.policy, len(turns.done)
+            dec = su.decisions()
+        return su.snap(None) + [res, known, dec]
 
+    probed = [object(), 0]
     try:
         out["snaps"].append(snap())
         out["primed"] = su.r.last_etag
@@ -1770,6 +2047,8 @@ def impl_run_conc(c):
             if left:
                 out["error"] = "checks %r had not returned after all their steps (more pre-emption points than " \
                                "start | etag | load | set_policy entry | set_policy exit | end?)" % (left,)
+        if not out["error"]:
+            out["final_decisions"] = su.decisions()
         out["final_loadable_doc"] = su.world.loadable_doc()
         out["final_content"] = su.world.content()
         out["src_etag_attr"] = getattr(su.src, "_etag", None) if c["kind"][0] == "http" else None
@@ -1798,11 +2077,22 @@ CONC_KINDS = [["gen", 0], ["gen", 1], ["file", False], ["http", True], ["s3", 1,
 STEPS_PER_CHECK = 6      # start | etag | load | (to set_policy) | (set_policy) | rest; surplus steps are no-ops
 
 
-def conc_case(kind, order, evs_at, forces, nows, rng, fam, *, cfg=None, il=None, straddle=None, us=None):
+def conc_case(kind, order, evs_at, forces, nows, rng, fam, *, cfg=None, il=None, straddle=None, us=None, ns=None):
     """two overlapping checks run in the given order of steps (thread numbers), world events before the k-th step
     (evs_at[k]; k = len(order): after the last one); then the world is made loadable and three sequential unforced
     checks, each beyond any back-off window, follow (c["tail"] = their check numbers)."""
-    world = init_world(kind, 0)
+    ns = rng.choice(NS_MODES) if ns is None else ns
+    if ns and not (HAVE_YAML or kind[0] == "gen"):
+        ns = 0.0
+    fl = flavour_for(kind, rng)
+    p0 = 1
+    if ns:      # the documents written while the checks overlap (and the initial ones) are not JSON-serialisable
+        fl = yaml_flavour(kind, fl, rng)
+        evs_at = {k: [["write", ["n", ev[1][1]]] if (ev[0] == "write" and ev[1][0] == "d" and rng.random() < ns) else ev
+                      for ev in evs] for k, evs in evs_at.items()}
+        p0 = rng.choice([1, N_OFF + 1])
+    world = init_world(kind, 3 if (ns and rng.random() < 0.5) else 0)
+    head = {"kind": kind, "flavour": fl}
     pick_u = (lambda: rng.choice(US)) if us is None else (lambda: us)
     script = [["spawn", bool(forces[0])], ["spawn", bool(forces[1])]]
     for k, who in enumerate(order):
@@ -1820,8 +2110,8 @@ def conc_case(kind, order, evs_at, forces, nows, rng, fam, *, cfg=None, il=None,
         fix.append(["fail_etag", False])
     if w.fail_load:
         fix.append(["fail_load", False])
-    if w.store is None or w.store[0][0] != "d":
-        fix.append(["write", ["d", 31]])
+    if loadable_id(head, w.content()) is None:
+        fix.append(["write", ["n", 31]] if (ns and rng.random() < ns) else ["write", ["d", 31]])
     straddle = (rng.random() < 0.25) if straddle is None else straddle
     mid = fix.pop() if (straddle and fix) else None   # the world stabilises between etag() and load() of tail check 1
     for ev in fix:
@@ -1839,8 +2129,8 @@ def conc_case(kind, order, evs_at, forces, nows, rng, fam, *, cfg=None, il=None,
                 script.append(["ev", mid])
             script.append(["step", i, t, u])
     return {"kind": kind, "cfg": cfg or rng.choice(CFGS[:5]), "initial_load": (rng.random() < 0.5) if il is None else il,
-            "async": False, "p0": 1, "world": world, "script": script, "conc": True, "tail": tail,
-            "fam": fam, "flavour": flavour_for(kind, rng)}
+            "async": False, "p0": p0, "world": world, "script": script, "conc": True, "tail": tail,
+            "fam": fam, "flavour": fl, **({"ns": ns} if ns else {})}
 
 
 def _orders(n):
@@ -1946,6 +2236,7 @@ def impl_run_stress(c):
         su.ft.now = 1.0 + 4 * BIG
         su.r.check_and_reload()
         out["final_policy"] = pol_id(su.guard.policy)
+        out["final_decisions"] = su.decisions()
     except Exception as e:  # noqa: BLE001
         out["error"] = "harness error %s: %s" % (type(e).__name__, e)
     finally:
@@ -1975,6 +2266,9 @@ def _check_stress(chk, c, out):
     elif out.get("final_policy") != 99:
         chk.violation("after concurrent checks and two sequential ones the engine does not enforce the source's "
                       "document (version-tagged / untagged source)", c, impl=out)
+    elif decisions_off(out["final_policy"], out.get("final_decisions")):
+        chk.violation("after concurrent checks and two sequential ones the engine's decisions are not those of its "
+                      "active document", c, impl=out)
 
 
 # --------------------------------------------------------------------------
@@ -2009,6 +2303,22 @@ def check_cases(chk, cases, replay=False):
         chk.count("fam:" + c.get("fam", "?"))
         chk.count("kind:" + "/".join(str(x) for x in c["kind"]))
         chk.count("len:%s" % (len(c["script"]) if len(c["script"]) < 12 else "12+"))
+        if c.get("ns"):
+            chk.count("nonser:case may write documents json.dumps refuses")
+        if not c.get("stress") and not out.get("error"):
+            if c.get("conc"):
+                lds = [x[3] for i in out["finish_order"] for x in out["threads"][i]["calls"] if x[0] == "load" and x[2] == "ok"]
+                n_dec = sum(1 for sn in out["snaps"] if sn[11]) + 1
+            else:
+                lds = [x[3] for i in out["checks"] if i for x in i["calls"] if x[0] == "load" and x[2] == "ok"]
+                n_dec = sum(1 for i in out["checks"] if i and i.get("decisions")) + 1
+            ns_ld = [isinstance(x, int) and x >= N_OFF for x in lds]
+            run_ = max((sum(1 for _ in g) for k_, g in itertools.groupby(ns_ld) if k_), default=0)
+            if run_:
+                chk.count("nonser:longest run of consecutive successful loads of such documents=%s" % min(run_, 4))
+            if any(a and b and x != y for a, b, x, y in zip(ns_ld, ns_ld[1:], lds, lds[1:])):
+                chk.count("nonser:two different such documents loaded in a row")
+            chk.count("decisions:probe points per history=%s" % min(n_dec, 6))
         chk.sample({"case": {k: v for k, v in c.items() if k != "flavour"}, "impl": out.get("snaps", [])[-1:],
                     "model": (m_out or [])[-1:]}, every=997)
         if out.get("error"):
@@ -2051,6 +2361,11 @@ def check_cases(chk, cases, replay=False):
             if i_obs is not None and (unweak(i_obs[0]) != tag_str(m_obs[0]) or i_obs[1] != m_obs[1]):
                 bad.append("HTTP source: remembered ETag / number of 304 answers (impl %r, model %r)"
                            % (i_obs, [tag_str(m_obs[0]), m_obs[1]]))
+            decs = out.get("final_decisions") if ix == len(out["snaps"]) - 1 else \
+                (out["checks"][ix - 1] or {}).get("decisions") if ix >= 1 else None
+            if decisions_off(m_s[1], decs):
+                bad.append("decisions on the probe requests are not those of the model's active document %r: %r"
+                           % (m_s[1], decisions_off(m_s[1], decs)))
             if bad:
                 chk.corr_break("HotReloader/source observables differ from the model after command %d: %s"
                                % (ix - 1, ", ".join(bad)), c,
@@ -2089,6 +2404,14 @@ def _check_conc(chk, c, out, m_out):
     if last[2] != sum(1 for r in results if r is True):
         chk.violation("overlapping checks: cache clears != number of checks that returned True", c, impl=snaps, model=m_out)
         return
+    for ix, sn in enumerate(snaps + [last[:11] + [out.get("final_decisions")]]):
+        off = decisions_off(sn[1], sn[11])
+        if off:
+            chk.violation("overlapping checks: the engine's decisions on the probe requests are not those of its active "
+                          "document (the one guard.policy shows)", c,
+                          impl={"after_command": ix - 1, "document": sn[1], "probe_got_expected": off,
+                                "decisions": sn[11], "checks": out["threads"], "snaps": snaps}, model=m_out)
+            return
     # --- convergence once the overlapping checks have returned and the source is stable and loadable
     verdict, detail = conc_tail_verdict(c, out)
     if verdict is not None:
@@ -2195,6 +2518,8 @@ def run(chk):
         "float arithmetic: inputs are dyadic, so the only roundings are `now + 0.2` and products with jitter_ratio 0.15; "
         "suppressed_until/backoff are compared with relative tolerance 1e-9",
     ]
+    for k_ in range(6):
+        n_selfcheck(k_)
     corp = corpus_cases()
     check_cases(chk, corp)
     cases = gen_cases(chk)
